@@ -475,14 +475,28 @@ def c03_r9(ctx):
     f = prog.method("index.FileIndex", "_reader", inherited=False)
     ctx.saw(f)
     n = 0
+    # the map of re-usable readers, by role: a local whose value is derived from the `reuse` parameter and keyed by .segment()
+    derived = set([f.params[-1]]) if "reuse" not in f.params else set(["reuse"])
+    asg = norm.assigned_names(f.node)
+    grew = True
+    while grew:
+        grew = False
+        for nm_, vals in asg.items():
+            if nm_ not in derived and any(v is not None and (norm.names_in(v) & derived) for v in vals):
+                derived.add(nm_)
+                grew = True
+    maps = set(nm_ for nm_ in derived if any(v is not None and ".segment()" in norm.canon(v) and isinstance(v, (ast.Call, ast.DictComp, ast.Dict))
+                                              for v in asg.get(nm_, [])))
+    if not maps:
+        raise AnalysisError("FileIndex._reader: the map of re-usable readers was not found")
     # the closure (or loop) that picks a reader for a segment
     scopes = [x for x in ast.walk(f.node) if isinstance(x, ast.FunctionDef) and x is not f.node] or [f.node]
     for sc in scopes + ([f.node] if scopes != [f.node] else []):
         takes = []
         for x in ast.walk(sc):
-            if isinstance(x, ast.Subscript) and isinstance(x.ctx, ast.Load) and norm.canon(x.value) == "reusable":
+            if isinstance(x, ast.Subscript) and isinstance(x.ctx, ast.Load) and norm.canon(x.value) in maps:
                 takes.append(x)
-            elif isinstance(x, ast.Call) and isinstance(x.func, ast.Attribute) and x.func.attr in ("pop", "get") and norm.canon(x.func.value) == "reusable":
+            elif isinstance(x, ast.Call) and isinstance(x.func, ast.Attribute) and x.func.attr in ("pop", "get") and norm.canon(x.func.value) in maps:
                 takes.append(x)
         if not takes:
             continue
